@@ -201,7 +201,9 @@ fn c13(tc: &Toolchain, tier: &str, tag: &str, seed: u64, thorough: bool, root: &
                 code = code.max(2);
                 continue;
             }
-            if generator_fault(&checked[i].stderr) {
+            // the macro-misuse probes are expected to die in macro expansion ("no rules expected ...")
+            let macro_probe = class.contains("field!") || class.contains("unlock!");
+            if generator_fault(&checked[i].stderr) && !macro_probe {
                 eprintln!("gcverif: probe generator fault (cannot decide): {class}: {}", checked[i].stderr.lines().take(5).collect::<Vec<_>>().join(" | "));
                 code = code.max(2);
                 continue;
